@@ -363,7 +363,10 @@ def run_c02(case):
                             pending_len = None
                         stats["samples"] = stats.get("samples", 0) + 1
                 except SimBudgetExceeded as ex:
-                    out.append(viol("C02", "termination", "draw-budget-exceeded", innermost_site(ex.__traceback__)))
+                    if sim.fired:
+                        stats["growth_under_faults"] = 1   # see geosim: legal-but-probability-zero draw runs
+                    else:
+                        out.append(viol("C02", "termination", "draw-budget-exceeded", innermost_site(ex.__traceback__)))
                     break
                 except Exception as ex:
                     site = innermost_site(ex.__traceback__)
@@ -420,7 +423,10 @@ def run_c15(case):
                 _run_adaptive(case, sim, out, stats, log)
             steps = len(case["history"])
         except SimBudgetExceeded as ex:
-            out.append(viol("C15", "termination", "draw-budget-exceeded", innermost_site(ex.__traceback__)))
+            if sim.fired:
+                stats["growth_under_faults"] = 1
+            else:
+                out.append(viol("C15", "termination", "draw-budget-exceeded", innermost_site(ex.__traceback__)))
         except Exception as ex:
             if case["kind"] == "static" and "got size 0" in str(ex):
                 stats["excluded_empty_partner"] = 1   # as in C02: empty density partner sample
